@@ -124,6 +124,35 @@ def scalar_case(task):
                 break
     except Exception as ex:     # noqa: BLE001
         out['bad'].append(('dtype', 'raised', repr(ex)[:120]))
+    # --- locality: a non-finite sample (excised point, NaN mask) reaches
+    # exactly the points whose stencil contains it, no others
+    try:
+        with np.errstate(all='ignore'):
+            for idx, col in cols.items():
+                if any(idx[a] != 0 for a in range(3) if a != axis):
+                    continue
+                for bad_val in (np.nan, np.inf):
+                    e = np.zeros(shape)
+                    e[idx] = bad_val
+                    r = np.asarray(op(e))
+                    out['entries'] += col.size
+                    want = np.zeros(shape, dtype=bool)
+                    for i in range(N):
+                        if idx[axis] in fdweights.reference_reach(
+                                i, N, p, boundary):
+                            tgt = list(idx)
+                            tgt[axis] = i
+                            want[tuple(tgt)] = True
+                    if r.shape != col.shape or not np.array_equal(
+                            ~np.isfinite(r), want) or np.any(
+                                r[~want] != 0):
+                        out['bad'].append(('locality', repr(bad_val),
+                                           list(idx)))
+                        break
+                if out['bad']:
+                    break
+    except Exception as ex:     # noqa: BLE001
+        out['bad'].append(('locality', 'raised', repr(ex)[:120]))
     # --- homogeneity: tiny impulses, and tiny impulses on a constant offset
     # (a perturbation on an O(1) background), reproduce the same columns
     try:
